@@ -73,6 +73,10 @@ def jobs(tier, seed):
     for gen, kw in [("gen_dfs", {}), ("gen_percolation", dict(p=1.0))]:
         for nm in ([0, 1] if q else [0, 1, 2]):
             out.append(dict(h="dataset", gen=gen, n=2, kwargs=kw, endpoint={}, n_mazes=nm, max_seconds=3300))
+    # the endpoint options must also survive the way MazeDataset.generate hands the configuration to its workers
+    # (it rebuilds it through load(serialize())): every option combination through generate itself
+    for eo in ENDPOINT_OPTIONS[1:]:
+        out.append(dict(h="dataset", gen="gen_dfs", n=2, kwargs={}, endpoint=eo, n_mazes=1, max_seconds=3300))
     out[0]["twin"] = True
     return out
 
@@ -245,7 +249,7 @@ META = dict(
                "TargetedLatticeMaze.__post_init__", "all five generators"],
     bounds=dict(
         quick="every RNG draw symbolic; grid_n=2 for all five generators (+ constrained variants) x 12 endpoint-option combinations (single options and allowed-list + dead-end combined); grid_n=3 for gen_dfs "
-              "x 2 endpoint combinations; MazeDataset.generate with n_mazes in {0,1} at grid_n=2; Wilson walk bound K=8",
+              "x 2 endpoint combinations; MazeDataset.generate with n_mazes in {0,1} at grid_n=2 (n_mazes=1 for every endpoint-option combination); Wilson walk bound K=8",
         thorough="grid_n=3 also for constrained dfs, prim, percolation, dfs_percolation x all 12 endpoint combinations; n_mazes up to 2",
     ),
     degenerate=dict(item="for tree generators every path is one concrete random execution (enumeration of the RNG decision tree); "
